@@ -18,14 +18,14 @@ RULE = ('case = one connector setting with its existence patterns; all registere
 ASSUMPTIONS = ['brute-force reference matrices (vf/refmodel.valid_matrices)',
                'the two constraint-violation imputers are documented to flag instead of repair: "valid matrix" is replaced by '
                '"valid or flagged, and never flagged on a direct hit" for them',
-               'declared spaces > 6000 (quick) / 70000 (thorough) vectors are skipped and counted (then exhaustive=false)']
+               'declared spaces > 6000 (quick) / 20000 (thorough) vectors are skipped and counted (then exhaustive=false)']
 CHUNK = 1
 REQUIRED_FEATURES = {'*': ['eager', 'lazy', 'enum', 'pattern_ok', 'pattern_rejected', 'imputed', 'out_of_range', 'inactive_var']}
 EXHAUSTIVE = True
 
 T5 = [('1', False), ('0..1', False), ('0..*', True), ('1..*', False), ('0,2', True)]
 T6 = T5 + [('1..2', True)]
-MAX_SPACE = {'quick': 6000, 'thorough': 70000}
+MAX_SPACE = {'quick': 6000, 'thorough': 20000}
 _TIER = ['quick']
 
 
